@@ -283,12 +283,14 @@ def check_case(case, ctx):
         ctx.count('endian:big')
     try:
         if f.startswith('generate_'):
-            if f == 'generate_sum_n_bits':
-                ar.generate_sum_n_bits(case['n'], basis=basis, big_endian=be)
-            elif f == 'generate_sum_weighted_bits_efficient':
-                ar.generate_sum_weighted_bits_efficient(case['weights'], basis=basis)
-            else:
-                ar.generate_sum_weighted_bits_naive(case['weights'], basis=basis)
+            for rep in range(2):   # the same request twice; the first result is edited by its owner in between
+                if f == 'generate_sum_n_bits':
+                    g = ar.generate_sum_n_bits(case['n'], basis=basis, big_endian=be)
+                elif f == 'generate_sum_weighted_bits_efficient':
+                    g = ar.generate_sum_weighted_bits_efficient(case['weights'], basis=basis)
+                else:
+                    g = ar.generate_sum_weighted_bits_naive(case['weights'], basis=basis)
+                A.own_and_edit(g, rng)
         else:
             host = netgen.from_description(case['host'])
             with monitor.suspended():
